@@ -550,6 +550,59 @@ def idle_loop_stream(_=None):
     return fails
 
 
+def _in_child(fn):
+    """run an impl-only stream in a worker process of its own (it sets and closes event loops)"""
+    with mp.Pool(1, maxtasksperchild=1) as pool:
+        return pool.apply(fn)
+
+
+def shutdown_stream(_=None):
+    """impl-only: the coroutine scheduled by `create_task` is suspended on something that never completes and EVERY task of the loop
+    is cancelled (what `asyncio.run()` and shutdown code do, reaching the hidden wrapper task of create_task too): the coroutine ends
+    with that cancellation, so the returned future - and its mirror on the communicator side - end cancelled, not pending for ever"""
+    from harness import common
+    common.ensure_repo_on_path()
+    import asyncio
+    from plumpy import futures, communications
+    fails = []
+    for suspended_for in (1, 3):
+        for mirror in (False, True):
+            loop = asyncio.new_event_loop()
+            asyncio.set_event_loop(loop)
+
+            def once():
+                loop.call_soon(loop.stop)
+                loop.run_forever()
+            state = []
+
+            async def coro():
+                state.append('started')
+                try:
+                    await loop.create_future()
+                finally:
+                    state.append('ended')
+            fut = futures.create_task(coro, loop)
+            kiwi = communications.plum_to_kiwi_future(fut) if mirror else None
+            for _ in range(suspended_for + 2):
+                once()
+            for t in asyncio.all_tasks(loop):
+                t.cancel()
+            for _ in range(6):
+                once()
+            got = 'cancelled' if fut.cancelled() else 'done' if fut.done() else 'pending'
+            gotm = None if kiwi is None else ('cancelled' if kiwi.cancelled() else 'done' if kiwi.done() else 'pending')
+            if state != ['started', 'ended'] or got != 'cancelled' or (kiwi is not None and gotm != 'cancelled'):
+                fails.append(dict(signature='cancel-lost-create-task', clause="the future returned for a scheduled coroutine (and its mirror) "
+                                  "ends with the coroutine's cancellation", detail=dict(coroutine=state, future=got, mirror=gotm),
+                                  case=dict(fam='shutdown', groups=[])))
+            try:
+                loop.close()
+            except Exception:  # noqa
+                pass
+    asyncio.set_event_loop(None)
+    return fails
+
+
 def run(ctx):
     cases, exhaustive = gen_cases(ctx)
     hints = getattr(ctx, 'hints', None) or []
@@ -571,7 +624,7 @@ def run(ctx):
         chunks = [lines[i:i + size] for i in range(0, len(lines), size)]
         outs = ctx.model.run_parallel('futures', chunks)
         model = [l for ch in outs for l in ch]
-    divergences, failures = [], list(monitor_corpus(corpus)) + idle_loop_stream()
+    divergences, failures = [], list(monitor_corpus(corpus)) + idle_loop_stream() + _in_child(shutdown_stream)
     distinct = set()
     fams, depths, terms, threads, nops = {}, {}, {}, {}, 0
     for idx, (case, out) in enumerate(zip(cases, impl)):
@@ -619,6 +672,8 @@ def replay(ctx, failure):
     case = failure['case']
     if case.get('fam') == 'idle-loop':
         return dict(failures=idle_loop_stream())
+    if case.get('fam') == 'shutdown':
+        return dict(failures=_in_child(shutdown_stream))
     if case.get('fam') == 'corpus-f20':
         r = fi.corpus_f20()
         return dict(impl=r, failures=monitor_corpus(r))
